@@ -761,3 +761,39 @@ def r06i(R):
             'use of the name outside the routine compiles instead of being '
             'rejected as unknown',
             path=path_text(p or q) if (p or q) else None)
+
+
+@rule('R06.j', ('C06',), 'a failed sub-parse is never turned into a success',
+      floor=60,
+      decides='a text with an error is rejected: once a parse routine has '
+              'reported a failure no caller goes on to accept the script')
+def r06j(R):
+    A = R.A
+    P, _pred = parse_routines(A)
+    Pset = set(P)
+    n_tests = 0
+    for f in sorted(P, key=lambda x: x.short):
+        cfg = A.cfg(f)
+        for n in cfg.nodes:
+            if n.kind != 'cond' or not isinstance(n.ast, ast.Call):
+                continue
+            callees = A.callees(f, n.ast)
+            if not callees or not all(t in Pset for t in callees):
+                continue
+            n_tests += 1
+            starts = [m for m, lab in n.succs if lab is False]
+            # a success exit reachable from the failure edge without another
+            # verdict being consulted
+            def blocked(m):
+                return m.kind == 'cond' and m is not n
+            p = cfg.find_path(
+                starts, lambda m: m.is_return and A.ret_class(f, m)[0] == 'ok',
+                avoid=[m for m in cfg.nodes if blocked(m)])
+            R.check(f, n.ast, p is None,
+                    '%s failed (and reported why), yet this routine can go on '
+                    'to return success: the script is accepted - and partly '
+                    'compiled - although an error was reported'
+                    % norm(n.ast.func), path=path_text(p) if p else None,
+                    line=n.ast.lineno)
+    if n_tests < 60:
+        raise AnalysisError('R06.j: only %d sub-parse tests found' % n_tests)
